@@ -444,6 +444,212 @@ theorem resolve_den (ext : Table) (t : Tok) (wf : t.WF) :
   · exact wf.elim
   · exact wf.elim
 
+/-! ### (6) the full interning statement -/
+
+theorem resolveAll_length : ∀ (ts : List Tok) (tb : Table), (resolveAll tb ts).length = ts.length := by
+  intro ts
+  induction ts with
+  | nil => intro tb; rfl
+  | cons t ts ih => intro tb; simp [resolveAll, ih]
+
+/-- every pointer of the stream denotes its token's key in one final table -/
+theorem resolveAll_den : ∀ (ts : List Tok) (ext : Table), (∀ t ∈ ts, t.WF) →
+    ∃ e, ∀ (i : Nat) (t : Tok) (p : Ptr), ts[i]? = some t → (resolveAll (initTable ++ ext) ts)[i]? = some p →
+      PtrDen (initTable ++ ext ++ e) t p := by
+  intro ts
+  induction ts with
+  | nil => intro ext _; exact ⟨[], fun i t p h => by simp at h⟩
+  | cons t ts ih =>
+    intro ext wf
+    obtain ⟨e1, he1, hd1⟩ := resolve_den ext t (wf t List.mem_cons_self)
+    obtain ⟨e2, h2⟩ := ih (ext ++ e1) (fun u hu => wf u (List.mem_cons_of_mem _ hu))
+    refine ⟨e1 ++ e2, ?_⟩
+    intro i u p hu hp
+    have assoc : initTable ++ ext ++ (e1 ++ e2) = initTable ++ ext ++ e1 ++ e2 := by simp
+    cases i with
+    | zero =>
+      simp only [List.getElem?_cons_zero, Option.some.injEq] at hu
+      subst hu
+      simp only [resolveAll, List.getElem?_cons_zero, Option.some.injEq] at hp
+      subst hp
+      rw [assoc]
+      exact hd1.ext e2
+    | succ j =>
+      simp only [List.getElem?_cons_succ] at hu
+      simp only [resolveAll, List.getElem?_cons_succ] at hp
+      rw [he1, List.append_assoc] at hp
+      have := h2 j u p hu hp
+      rw [assoc, List.append_assoc initTable ext e1]
+      exact this
+
+/-- 0 = end marker, 1 = single-character constant, 2 = token held by the interning map -/
+def kind (t : Tok) : Nat :=
+  match t.src with
+  | .eoleof => 0
+  | .char1 => 1
+  | _ => 2
+
+def isC1Type (ty : TType) : Bool := (cTokens.map (·.2)).contains ty
+
+/-- the same classification read off the type alone -/
+def tcls (ty : TType) : Nat := if ty = EOL ∨ ty = EOF then 0 else if isC1Type ty then 1 else 2
+
+theorem cTokens_cls : ∀ p ∈ cTokens, tcls p.2 = 1 := by decide
+theorem c2Tokens_cls : ∀ p ∈ c2Tokens, tcls p.2 = 2 := by decide
+theorem keywords_cls : ∀ p ∈ keywords, tcls p.2 = 2 := by decide
+
+theorem wf_cls (t : Tok) (wf : t.WF) : tcls t.type = kind t := by
+  unfold Tok.WF at wf
+  unfold kind
+  split at wf
+  · rename_i hs; simp only [hs]; rcases wf.1 with e | e <;> (rw [e]; decide)
+  · rename_i hs; simp only [hs]
+    obtain ⟨c, _, hc⟩ := wf
+    exact cTokens_cls _ (lookup_mem _ _ _ hc)
+  · rename_i hs; simp only [hs]
+    obtain ⟨a, b, _, hc⟩ := wf
+    exact c2Tokens_cls _ (lookup_mem _ _ _ hc)
+  · rename_i hs; simp only [hs]
+    rcases wf with e | e | e | e | e | e <;> (rw [e]; decide)
+  · rename_i hs; simp only [hs]
+    cases hl : keywords.lookup t.lit with
+    | none => rw [hl] at wf; simp only [Option.getD] at wf; rw [wf]; decide
+    | some ty =>
+      rw [hl] at wf; simp only [Option.getD] at wf; rw [wf]
+      exact keywords_cls _ (lookup_mem _ _ _ hl)
+  · exact wf.elim
+  · exact wf.elim
+
+/-- normal form of `PtrDen` by kind -/
+theorem den_norm {T : Table} {t : Tok} {p : Ptr} (wf : t.WF) (h : PtrDen T t p) :
+    (kind t = 0 ∧ t.lit = [] ∧ p = (if t.type = EOL then Ptr.eolt else Ptr.eoft))
+    ∨ (kind t = 1 ∧ ∃ c, t.lit = [c] ∧ cTokens.lookup c = some t.type ∧ p = Ptr.c1 c)
+    ∨ (kind t = 2 ∧ p = Ptr.slot (idx (key t) T) ∧ key t ∈ T) := by
+  unfold Tok.WF at wf
+  unfold PtrDen at h
+  unfold kind
+  split at wf
+  · rename_i hs; simp only [hs] at h ⊢; exact Or.inl ⟨trivial, wf.2, h⟩
+  · rename_i hs; simp only [hs] at h ⊢
+    obtain ⟨c, hc, hl⟩ := wf
+    obtain ⟨c', hc', hp⟩ := h
+    have : c' = c := by rw [hc] at hc'; injection hc' with h1; exact h1.symm
+    subst this
+    exact Or.inr (Or.inl ⟨trivial, c', hc, hl, hp⟩)
+  · rename_i hs; simp only [hs] at h ⊢; exact Or.inr (Or.inr ⟨trivial, h⟩)
+  · rename_i hs; simp only [hs] at h ⊢; exact Or.inr (Or.inr ⟨trivial, h⟩)
+  · rename_i hs; simp only [hs] at h ⊢; exact Or.inr (Or.inr ⟨trivial, h⟩)
+  · exact wf.elim
+  · exact wf.elim
+
+theorem idx_inj {T : Table} {k1 k2 : Key} (m1 : k1 ∈ T) (m2 : k2 ∈ T) (h : idx k1 T = idx k2 T) : k1 = k2 := by
+  have a := idx_getElem? k1 T m1
+  have b := idx_getElem? k2 T m2
+  rw [h, b] at a
+  injection a with a
+  exact a.symm
+
+/-- in one table, two well-formed tokens denote the same pointer iff type and literal agree -/
+theorem den_inj {T : Table} {t1 t2 : Tok} {p1 p2 : Ptr} (w1 : t1.WF) (w2 : t2.WF)
+    (d1 : PtrDen T t1 p1) (d2 : PtrDen T t2 p2) : p1 = p2 ↔ key t1 = key t2 := by
+  have c1 := wf_cls t1 w1
+  have c2 := wf_cls t2 w2
+  have kk : key t1 = key t2 → kind t1 = kind t2 := by
+    intro h
+    have : t1.type = t2.type := congrArg Prod.fst h
+    rw [← c1, ← c2, this]
+  rcases den_norm w1 d1 with ⟨k1, l1, e1⟩ | ⟨k1, a, la, ha, e1⟩ | ⟨k1, e1, m1⟩ <;>
+  rcases den_norm w2 d2 with ⟨k2, l2, e2⟩ | ⟨k2, b, lb, hb, e2⟩ | ⟨k2, e2, m2⟩
+  · -- two end markers
+    have ty1 : t1.type = EOL ∨ t1.type = EOF := by
+      unfold tcls at c1; rw [k1] at c1
+      by_cases h : t1.type = EOL ∨ t1.type = EOF
+      · exact h
+      · rw [if_neg h] at c1; split at c1 <;> cases c1
+    have ty2 : t2.type = EOL ∨ t2.type = EOF := by
+      unfold tcls at c2; rw [k2] at c2
+      by_cases h : t2.type = EOL ∨ t2.type = EOF
+      · exact h
+      · rw [if_neg h] at c2; split at c2 <;> cases c2
+    subst e1; subst e2
+    unfold key
+    rw [l1, l2]
+    rcases ty1 with h1 | h1 <;> rcases ty2 with h2 | h2 <;> simp [h1, h2]
+  · subst e1; subst e2
+    constructor
+    · intro h; split at h <;> cases h
+    · intro h; have := kk h; omega
+  · subst e1; subst e2
+    constructor
+    · intro h; split at h <;> cases h
+    · intro h; have := kk h; omega
+  · subst e1; subst e2
+    constructor
+    · intro h; split at h <;> cases h
+    · intro h; have := kk h; omega
+  · -- two single-character constants
+    subst e1; subst e2
+    unfold key
+    constructor
+    · intro h
+      injection h with h
+      subst h
+      rw [ha] at hb; injection hb with hb
+      rw [la, lb, hb]
+    · intro h
+      have : t1.lit = t2.lit := congrArg Prod.snd h
+      rw [la, lb] at this
+      injection this with this
+      rw [this]
+  · subst e1; subst e2
+    constructor
+    · intro h; cases h
+    · intro h; have := kk h; omega
+  · subst e1; subst e2
+    constructor
+    · intro h; split at h <;> cases h
+    · intro h; have := kk h; omega
+  · subst e1; subst e2
+    constructor
+    · intro h; cases h
+    · intro h; have := kk h; omega
+  · -- two slots of the interning map
+    subst e1; subst e2
+    constructor
+    · intro h; injection h with h; exact idx_inj m1 m2 h
+    · intro h; rw [h]
+
+/-- (6) interning, full statement: over any stream of well-formed tokens (every token the lexer
+returns is one: `C16.next_wf`), resolved against any table that extends the one built by `Init`,
+two calls return the same pointer iff type and literal are equal -/
+theorem C16.interning : C16.InterningStatement := by
+  intro ts wf ext i j hi hj
+  obtain ⟨e, hd⟩ := resolveAll_den ts ext wf
+  have li : i < (resolveAll (initTable ++ ext) ts).length := by rw [resolveAll_length]; exact hi
+  have lj : j < (resolveAll (initTable ++ ext) ts).length := by rw [resolveAll_length]; exact hj
+  have di := hd i ts[i] _ (List.getElem?_eq_getElem hi) (List.getElem?_eq_getElem li)
+  have dj := hd j ts[j] _ (List.getElem?_eq_getElem hj) (List.getElem?_eq_getElem lj)
+  have := den_inj (wf _ (List.getElem_mem hi)) (wf _ (List.getElem_mem hj)) di dj
+  rw [List.getElem?_eq_getElem li, List.getElem?_eq_getElem lj]
+  constructor
+  · intro h; injection h with h; exact this.mp h
+  · intro h; rw [this.mpr h]
+
+/-- the pointers of the tokens returned by `k` successive calls of the lexer, from any state -/
+theorem C16.interning_lexer (s : State) (k : Nat) (ext : Table) (i j : Nat) (hi : i < k) (hj : j < k) :
+    let ts := (List.range k).map fun n => (next (iter n s)).1
+    ((resolveAll (initTable ++ ext) ts)[i]? = (resolveAll (initTable ++ ext) ts)[j]?
+      ↔ ((next (iter i s)).1.type, (next (iter i s)).1.lit) = ((next (iter j s)).1.type, (next (iter j s)).1.lit)) := by
+  intro ts
+  have wf : ∀ t ∈ ts, t.WF := by
+    intro t ht
+    obtain ⟨n, _, rfl⟩ := List.mem_map.mp ht
+    exact C16.next_wf _
+  have hi' : i < ts.length := by simp [ts]; exact hi
+  have hj' : j < ts.length := by simp [ts]; exact hj
+  have := C16.interning ts wf ext i j hi' hj'
+  simpa [ts] using this
+
 /-! ### non-vacuity: the three repaired inputs, evaluated by the kernel -/
 
 def lexTypes (input : List UInt8) (lineMode : Bool) (k : Nat) : List (TType × Bytes × Nat) :=
